@@ -189,7 +189,7 @@ pub fn items(tier: Tier, id: &str) -> Vec<Item> {
             out.push(Item { cfgs: c.to_vec(), f32_too: false });
         }
     }
-    if id == "C10" || id == "C17" {
+    if id == "C10" || id == "C17" || id == "C13" || id == "C04" || id == "C03" {
         // adversarial ratios: chunk/ratio lands within rounding distance of an integer, where
         // differently written formulas for the needed input size disagree
         let nd = |x: f64| f64::from_bits(x.to_bits() - 1);
@@ -906,6 +906,45 @@ fn cycles_item(journal: Option<&JournalFile>) -> Result<Value, String> {
             }
         }
     }
+    // more channels than any fixed-size per-call bookkeeping is likely to provide for (33, 48):
+    // a plain walk with the heap counted around every call (the engines keep channel sets in
+    // 32-bit words, so this width is walked directly on the resampler)
+    for nch in [33usize, 48] {
+        for cfg in [
+            Cfg::sinc(Kind::SI, 48000.0 / 44100.0, 2.0, 16, 8, 2, Interp::Cubic, Kernel::Dispatch).with_channels(nch),
+            Cfg::sinc(Kind::SO, 48000.0 / 44100.0, 2.0, 16, 8, 2, Interp::Cubic, Kernel::Dispatch).with_channels(nch),
+            Cfg::sinc(Kind::SO, 0.8, 2.0, 16, 8, 2, Interp::Nearest, Kernel::Dispatch).with_channels(nch),
+            Cfg::fast(Kind::FI, 0.8, 2.0, 16, Degree::Cubic).with_channels(nch),
+            Cfg::fast(Kind::FO, 0.8, 2.0, 16, Degree::Septic).with_channels(nch),
+            Cfg::fft(Kind::XI, 3, 2, 12, 2).with_channels(nch),
+            Cfg::fft(Kind::XO, 2, 3, 12, 2).with_channels(nch),
+            Cfg::fft(Kind::XX, 3, 2, 12, 1).with_channels(nch),
+        ] {
+            let mut r = cfg.build::<f64>()?;
+            let inp: Vec<Vec<f64>> = r.input_buffer_allocate(true);
+            let mut out: Vec<Vec<f64>> = r.output_buffer_allocate(true);
+            let mask: Vec<bool> = (0..nch).map(|c| c % 3 != 1).collect();
+            states += 1;
+            for step in 0..8usize {
+                if step == 3 && cfg.kind.is_async() {
+                    let _ = r.set_resample_ratio_relative(1.5, true);
+                }
+                if step == 5 {
+                    r.reset();
+                }
+                let m: Option<&[bool]> = if step % 2 == 1 { Some(&mask) } else { None };
+                let c0 = crate::alloc::now();
+                let res = r.process_into_buffer(&inp, &mut out, m);
+                let d = crate::alloc::now().since(&c0);
+                transitions += 1;
+                outcomes.insert(format!("{}:wide:{}", cfg.kind.name(), if res.is_ok() { "Ok" } else { "Err" }));
+                if d.total() > 0 && found.len() < 60 {
+                    found.push(json!({"prop": "C09", "sig": "alloc-in:process_into_buffer:many-channels", "detail": format!("call {} of a plain walk on {} channels ({}): {:?}", step, nch, if m.is_some() { "masked" } else { "unmasked" }, d), "cfg": cfg.to_json(), "history": "", "sample_type": "f64", "point": "wide"}));
+                    break;
+                }
+            }
+        }
+    }
     Ok(json!({
         "label": "repeated cycles", "states": states, "transitions": transitions,
         "outcomes": outcomes.iter().collect::<Vec<_>>(), "found": found,
@@ -1131,6 +1170,17 @@ impl Check for CtrlCheck {
                     oj["extra"] = json!({"worst_units": crate::twin::WORST.with(|w| w.replace(0.0)), "class": twin_class(cfg)});
                     merge(&mut acc, oj);
                 }
+                // and on a loud one (peak 2^100): explicitly selected kernels and every sixteenth
+                // of the other configurations (another sixteenth)
+                if cfg.chunk < 10_000 && (matches!(cfg.kernel, Kernel::Sse | Kernel::Avx | Kernel::Scalar) && cfg.kind.is_sinc() || (cfg.chunk + cfg.channels + cfg.filter_len()) % 16 == 8) {
+                    let mkl = || -> Result<Box<dyn crate::explore::Sys>, String> {
+                        Ok(Box::new(crate::twin::TwinSys::loud(cfg)?))
+                    };
+                    let o = crate::explore::explore_sys(&spec, &mkl, jref).map_err(|e| format!("{}: {}", cfg.short(), e))?;
+                    let mut oj = outcome_json(cfg, &o, "twin-loud");
+                    oj["extra"] = json!({"worst_units": crate::twin::WORST.with(|w| w.replace(0.0)), "class": twin_class(cfg)});
+                    merge(&mut acc, oj);
+                }
                 continue;
             }
             if self.id == "C03" && (cfg.kind.is_fft() || cfg.chunk == 8) && cfg.chunk < (1 << 24) {
@@ -1242,6 +1292,11 @@ impl Check for CtrlCheck {
             .map_err(|_| "migration thread panicked".to_string())?;
             return Ok((bad, log));
         }
+        if replay.get("point").and_then(|x| x.as_str()) == Some("wide") {
+            let v = cycles_item(None)?;
+            let hit = v["found"].as_array().map(|a| a.iter().any(|f| f["sig"] == sig && f["cfg"] == replay["cfg"])).unwrap_or(false);
+            return Ok((hit, if hit { format!("    VIOLATES C09 [{}] (many-channel walk)\n", sig) } else { "  the many-channel walk finds no heap traffic for this configuration\n".to_string() }));
+        }
         if replay.get("point").and_then(|x| x.as_str()) == Some("zero channels") {
             let v = zero_channel_item(self.id)?;
             let hit = v["found"].as_array().map(|a| a.iter().any(|f| f["sig"] == sig && f["cfg"] == replay["cfg"])).unwrap_or(false);
@@ -1270,7 +1325,9 @@ impl Check for CtrlCheck {
             });
         }
         let make = || -> Result<Box<dyn crate::explore::Sys>, String> {
-            Ok(if self.id == "C17" && ty == "twin-tiny" {
+            Ok(if self.id == "C17" && ty == "twin-loud" {
+                Box::new(crate::twin::TwinSys::loud(&cfg)?)
+            } else if self.id == "C17" && ty == "twin-tiny" {
                 Box::new(crate::twin::TwinSys::tiny(&cfg)?)
             } else if self.id == "C17" && ty == "twin-quiet" {
                 Box::new(crate::twin::TwinSys::quiet(&cfg)?)
